@@ -88,14 +88,29 @@ def run(ck, ctx):
         return sf[0][1], sf[0][2]
 
     def registered():
+        """format -> {reader / writer / identifier: function name}: the module-level statements that mention the
+        registry are evaluated (a list of calls, a loop over a table of rows, ...) and the registration calls they
+        make are read from the graph"""
+        from ..state import Frame
         reg = {}
+        n0 = len(g.nodes)
+        fr_ = Frame(None, m, {}, ())
+        stm = I.new_state()
         for st in m.tree.body:
-            if isinstance(st, ast.Expr) and isinstance(st.value, ast.Call) and \
-                    census.dotted(st.value.func).startswith("registry.register_"):
-                kind = census.dotted(st.value.func).split("_")[-1]
-                a_ = st.value.args
-                if len(a_) >= 3 and isinstance(a_[0], ast.Constant):
-                    reg.setdefault(a_[0].value, {})[kind] = ast.unparse(a_[2])
+            if isinstance(st, (ast.Expr, ast.For, ast.If, ast.With)) and "register_" in ast.unparse(st):
+                try:
+                    I.exec_block([st], fr_, stm)
+                except Exception:       # noqa: BLE001 - an unreadable statement registers nothing we can see
+                    pass
+        for n in g.nodes[n0:]:
+            if n.op == "Call" and n.args and n.args[0].op == "Ext" and ".register_" in n.args[0].attr and \
+                    n.args[0].attr.split(".")[-1] in ("register_reader", "register_writer", "register_identifier"):
+                pos_, _k = call_args(n)
+                if len(pos_) >= 3 and pos_[0].op == "Const" and isinstance(pos_[0].attr, str):
+                    fnode = pos_[2]
+                    name = fnode.attr.name if fnode.op in ("Func", "Closure") else (
+                        fnode.attr if fnode.op == "Ext" else g.show(fnode, 1))
+                    reg.setdefault(pos_[0].attr, {})[n.args[0].attr.split("_")[-1]] = name
         return reg
 
     def r181():
@@ -198,7 +213,7 @@ def run(ck, ctx):
         name_n, data_n = pos_ax[0], kw_ax.get("data", pos_ax[1] if len(pos_ax) > 1 else None)
         loops = [c for c, pol in e_ax.pc if c.op == "InLoop"]
         it = loops[-1].args[0] if loops else None
-        zipped = list(it.args) if it is not None and it.op == "Zip" else []
+        zipped = _lockstep(it)
         ok = name_n.op == "IterElem" and data_n is not None and data_n.op == "IterElem" and \
             name_n.args[0] in zipped and data_n.args[0] in zipped and \
             name_n.args[0].op == "Attr" and name_n.args[0].attr == "axis_names" and name_n.args[0].args[0] is grid and \
@@ -279,9 +294,9 @@ def run(ck, ctx):
         it_w, elt_w = sf[1][1], sf[1][2]
         tabs = [x for x in walk([elt_w]) if is_ext_call(x, "astropy.table.Table")]
         bint = base_of(elt_w)
-        okt = is_ext_call(bint, "astropy.io.fits.BinTableHDU") and len(tabs) == 1 and it_w.op == "Zip" and \
+        okt = is_ext_call(bint, "astropy.io.fits.BinTableHDU") and len(tabs) == 1 and bool(_lockstep(it_w)) and \
             tabs[0].args[1].op == "List" and len(tabs[0].args[1].args) == 1 and \
-            tabs[0].args[1].args[0].op == "IterElem" and tabs[0].args[1].args[0].args[0] in it_w.args and \
+            tabs[0].args[1].args[0].op == "IterElem" and tabs[0].args[1].args[0].args[0] in _lockstep(it_w) and \
             tabs[0].args[1].args[0].args[0].op == "Attr" and tabs[0].args[1].args[0].args[0].attr == "axes" and \
             tabs[0].args[1].args[0].args[0].args[0] is grid
         ck.ob("R18.1", "FITS axis table k is built from axis k (one column)", okt, elt_w, wn, g.show(elt_w, 3))
@@ -474,3 +489,15 @@ def _pos_str(p):
         return "?"
     a, b = p
     return f"{a}*k + {b}" if a != 1 else f"k + {b}"
+
+
+def _lockstep(it, depth=0):
+    """the sequences walked together by an iteration: the arguments of zip(...), also when the zip is walked inside a
+    generator whose results are iterated (for name, axis in pairs(grid))"""
+    if it is None or depth > 4:
+        return []
+    if it.op == "Zip":
+        return list(it.args)
+    if it.op == "Loop" and len(it.args) == 3 and it.extra and it.extra.get("generator_of") is not None:
+        return _lockstep(it.args[0], depth + 1)
+    return []
